@@ -267,7 +267,7 @@ pub fn filter_paths(paths: Vec<PathBuf>, e: &FileExtensions) -> (r: Vec<PathBuf>
 //@replace `&extensions)` => `extensions)` rule=R13 why=`the captured variable is a parameter of reference type in the outlined function`
 //@contract
     ensures
-        /*[C16.filter,C15.watch-rule]*/ r == relevant(*path, *extensions),
+        /*[C16.filter,C15.watch-rule,C06.event]*/ r == relevant(*path, *extensions),
 //@end
 
 //@fn src/engine/watcher.rs TargetWatcher::build_immediate_watcher#closure0 as=watch_event params=`result: NotifyResult<Event>, target_id: &TargetId, target_invalidated_sender: &Sender<TargetInvalidatedMessage>, extensions: &FileExtensions`
